@@ -118,6 +118,7 @@ ExpectedResp(pm) ==
     [] pm.cmd = "wait" -> {"bool:True", "bool:False"}
     [] pm.cmd \in {"stage", "unstage"} -> {"seq:0", "seq:1"}
     [] pm.cmd = "declare_stream" -> {"seq:3"}
+    [] pm.cmd = "subscribe" -> {"token"}
     [] pm.cmd = "rewindable" -> {"bool:True", "bool:False"}
     [] OTHER -> {}
 
